@@ -443,6 +443,9 @@ def run(prog, rep):
         guard = bool(calls) and all(any(t0.endswith(".endswith('_cardinality')") and p0 for t0, p0 in e0.guards()) for e0 in calls)
         rep.check(bool(calls) and guard, "TAB-4", "%s reader parses *_cardinality entries" % fname, "ok",
                   "cardinality entries are no longer passed through parse_cardinality", r.where)
+    from ..report import import_verdicts
+    import_verdicts(prog, rep, "C07", ("DOM-5",), "GATE-1",
+                    "the refusal of documents with validation errors in ODMLWriter.write_file looks at every error of the validation")
     rep.assume("json/yaml dump and load preserve the structure of dictionaries, lists and strings")
 
 
